@@ -64,6 +64,10 @@ func c11Mapping() seq.Mapping {
 		"mt": {Main: seq.MappingType{TokenizerType: seq.TokenizerTypeText}, All: []seq.MappingType{
 			{Title: "mt", TokenizerType: seq.TokenizerTypeText}, {Title: "mt.keyword", TokenizerType: seq.TokenizerTypeKeyword, MaxSize: c11MtKw}}},
 		"mt.keyword": seq.NewSingleType(seq.TokenizerTypeKeyword, "mt.keyword", c11MtKw),
+		// the same, with the default (text) type listed last
+		"mr": {Main: seq.MappingType{TokenizerType: seq.TokenizerTypeText}, All: []seq.MappingType{
+			{Title: "mr.keyword", TokenizerType: seq.TokenizerTypeKeyword, MaxSize: c11MtKw}, {Title: "mr", TokenizerType: seq.TokenizerTypeText}}},
+		"mr.keyword": seq.NewSingleType(seq.TokenizerTypeKeyword, "mr.keyword", c11MtKw),
 		"_exists_":   seq.NewSingleType(seq.TokenizerTypeKeyword, "", 0),
 	}
 }
@@ -288,7 +292,7 @@ func runC11(w *h.W, batch int) {
 			vals[field] = v
 			present[field] = true
 		}
-		for _, f := range []string{"kw", "kw_small", "tx", "tx_small", "pa", "ex", "mt"} {
+		for _, f := range []string{"kw", "kw_small", "tx", "tx_small", "pa", "ex", "mt", "mr"} {
 			if dr.Chance(2, 3) {
 				v := c11Value(dr)
 				if f == "pa" && dr.Bool() {
@@ -420,10 +424,10 @@ func runC11(w *h.W, batch int) {
 				textRule(f, v, c11TxSmall)
 			case "pa":
 				pathRule(f, v, c11MaxTok)
-			case "mt":
-				textRule("mt", v, 32*1024)
-				kwRule("mt.keyword", v, c11MtKw)
-				present["mt.keyword"] = true
+			case "mt", "mr":
+				textRule(f, v, 32*1024)
+				kwRule(f+".keyword", v, c11MtKw)
+				present[f+".keyword"] = true
 			}
 			if !utf8.ValidString(v) {
 				classes["invalid-bytes"] = true
@@ -501,8 +505,8 @@ func runC11(w *h.W, batch int) {
 					continue
 				}
 				src, ok := vals[key]
-				if key == "mt.keyword" {
-					src, ok = vals["mt"], present["mt"]
+				if key == "mt.keyword" || key == "mr.keyword" {
+					src, ok = vals[key[:2]], present[key[:2]]
 				}
 				if !ok {
 					bad = fmt.Sprintf("phantom-token: token %s:%q for a field the document does not have", key, val)
@@ -514,7 +518,7 @@ func runC11(w *h.W, batch int) {
 				tv := strings.TrimRight(validPrefix(val), "\uFFFD")
 				okTok := false
 				switch key {
-				case "tx", "tx_small", "ob.t", "mt":
+				case "tx", "tx_small", "ob.t", "mt", "mr":
 					for _, wd := range c11Words(ls) {
 						if strings.HasPrefix(wd, tv) {
 							okTok = true
